@@ -26,6 +26,7 @@ import (
 	"github.com/google/gce-tcb-verifier/verify"
 	"github.com/google/go-sev-guest/abi"
 	spb "github.com/google/go-sev-guest/proto/sevsnp"
+	tpb "github.com/google/go-tdx-guest/proto/tdx"
 	tpmpb "github.com/google/go-tpm-tools/proto/attest"
 	"github.com/google/uuid"
 	"google.golang.org/protobuf/proto"
@@ -140,6 +141,16 @@ func buildQuote(class string) ([]byte, error) {
 			return nil, err
 		}
 		return m.QuoteBytes, nil
+	case "snp_short_meas":
+		return snpAtt(quoteMeas[:20], nil), nil
+	case "tdx_short_mrtd":
+		m, err := rp.GetMaterial()
+		if err != nil {
+			return nil, err
+		}
+		q := proto.Clone(m.Quote).(*tpb.QuoteV4)
+		q.TdQuoteBody.MrTd = q.TdQuoteBody.MrTd[:31]
+		return proto.Marshal(&tpmpb.Attestation{TeeAttestation: &tpmpb.Attestation_TdxAttestation{TdxAttestation: q}})
 	case "certtable_extra":
 		t := &abi.CertTable{Entries: []abi.CertTableEntry{{GUID: uuid.MustParse(sev.GCEFwCertGUID), RawCert: quoteBlob}}}
 		return t.Marshal(), nil
